@@ -141,4 +141,10 @@ def stallAt (ss : List Step) (k gap lat : Nat) : List (Step × Beh) :=
 def stallReturn (ss : List Step) (k start timeout : Nat) (deadline : Option Nat) : Option (Option Nat) :=
   ss[k]?.map fun s => ctxEnd s start timeout deadline
 
+/-- Time budget of a schedule: local computation plus one timeout per transport call (one call per
+−404 frame, plus the final one). -/
+def budget (timeout : Nat) : List (Step × Beh) → Nat
+  | [] => 0
+  | (_, b) :: rest => b.gap + (b.skips.length + 1) * timeout + budget timeout rest
+
 end TdModel.C12
